@@ -2346,7 +2346,7 @@ package gocql
 // query is executed again. Paging: a result with more pages carries a follow-up query that is a copy
 // of this one with the received paging state; a last page carries none.
 //@ func (c *Conn) executeQuery
-//@   props C14 C15 C03
+//@   props C14 C15 C03 C04
 //@   count_calls prepareStatement exec evictPreparedID executeQuery marshalQueryValue keyFor
 //@   requires qry != nil && ctx != nil && c.session != nil && c.session.stmtsLRU != nil && c.host != nil && qry.routingInfo != nil && plru_bound(c.session.stmtsLRU) && c.logger != nil && conn_ok(c)
 // tracers, the schema-agreement poll and the user's binding callback have no access to the calls table
@@ -2384,6 +2384,10 @@ package gocql
 //@   at_return[C15] typeis(resp, *resultRowsFrame) && iter.next != nil ==> same(iter.next.qry.stmt, qry.stmt) && same(iter.next.qry.values, qry.values) && iter.next.qry.pageSize == qry.pageSize && iter.next.qry.cons == qry.cons && iter.next.qry.session == qry.session && iter.next.qry.disableAutoPage == qry.disableAutoPage
 //@   at_return[C15] typeis(resp, *resultRowsFrame) && iter.next != nil ==> len(iter.next.qry.pageState) == len(x.meta.pagingState) && forall(k, 0 <= k && k < len(x.meta.pagingState), iter.next.qry.pageState[k] == x.meta.pagingState[k])
 //@   at_return[C15] typeis(resp, *resultRowsFrame) ==> iter.numRows == x.numRows && iter.framer == framer
+// C04: the iterator decodes the rows with the metadata of this response, or - when the request asked the server
+// to skip it - with the result metadata received when the statement was prepared, and the paging state of this response
+//@   at_return[C04] typeis(resp, *resultRowsFrame) && !params.skipMeta ==> same(iter.meta.columns, x.meta.columns) && iter.meta.actualColCount == x.meta.actualColCount && iter.meta.colCount == x.meta.colCount && same(iter.meta.pagingState, x.meta.pagingState)
+//@   at_return[C04] typeis(resp, *resultRowsFrame) && params.skipMeta && info != nil ==> same(iter.meta.columns, info.response.columns) && iter.meta.actualColCount == info.response.actualColCount && len(iter.meta.pagingState) == len(x.meta.pagingState) && forall(k, 0 <= k && k < len(x.meta.pagingState), iter.meta.pagingState[k] == x.meta.pagingState[k])
 //@   at_return[C15] typeis(resp, *resultRowsFrame) && iter.next != nil ==> iter.next.qry.conn == qry.conn && iter.next.qry.routingInfo == qry.routingInfo && iter.next.once.done.v == 0 && iter.next.next == nil
 //@   ensures executeQuery_calls == 0 ==> exec_calls <= 1
 //@   ensures evictPreparedID_calls == executeQuery_calls
